@@ -15,7 +15,14 @@
                 weights including the check position (adjacent transposition).
  C17.distance   for the Mod 97-10 formats whose input is rearranged (IBAN, ISO 11649) the expanded
                 length stays below the multiplicative order of 10 modulo 97, so that the pair split
-                by the rearrangement is still detected."""
+                by the rearrangement is still detected.
+ C17.discard    characters that compact()/validate() cut off before the check (a prefix recognised with
+                startswith / a slice comparison / membership in a tuple, then `number[k:]`) are seen by
+                no check; that is harmless for one fixed prefix (a mistyped prefix is not recognised and
+                the length or alphabet gate rejects the longer string) but two recognised prefixes of the
+                same length that differ in one character turn a single substitution into another accepted
+                spelling of a different number."""
+import ast
 import math
 import os
 
@@ -42,6 +49,54 @@ COVERAGE_UNDECIDED = {
     'stdnum.nl.btw': 'alternative acceptance: either the BSN check or Mod 97-10 over the whole number; coverage is per alternative',
     'stdnum.isan': scope._REBUILD, 'stdnum.meid': scope._REBUILD, 'stdnum.gs1_128': scope._REBUILD,
 }
+
+
+def _consts(node):
+    """String constants of a constant, a tuple/list/set of constants, or None."""
+    if isinstance(node, ast.Constant) and isinstance(node.value, str):
+        return [node.value]
+    if isinstance(node, (ast.Tuple, ast.List, ast.Set)):
+        out = []
+        for e in node.elts:
+            c = _consts(e)
+            if c is None:
+                return None
+            out += c
+        return out
+    return None
+
+
+def discarded_prefixes(func):
+    """[(prefix constants, If node)] for every `if <prefix test>: ... number[k:] ...` of the function, loops over constant
+    tuples included (`for prefix in (...): if number.startswith(prefix): number = number[len(prefix):]`)."""
+    out = []
+    loopvars = {}
+    for n in ast.walk(func):
+        if isinstance(n, (ast.For, ast.comprehension)) and isinstance(n.target, ast.Name) and _consts(n.iter) is not None:
+            loopvars[n.target.id] = _consts(n.iter)
+
+    def val(e):
+        if isinstance(e, ast.Name) and e.id in loopvars:
+            return loopvars[e.id]
+        return _consts(e)
+    for n in ast.walk(func):
+        if not isinstance(n, ast.If):
+            continue
+        drops = any(isinstance(x, ast.Subscript) and isinstance(x.slice, ast.Slice) and x.slice.lower is not None and x.slice.upper is None
+                    and x.slice.step is None and not (isinstance(x.slice.lower, ast.UnaryOp))
+                    for b in n.body for x in ast.walk(b))
+        if not drops:
+            continue
+        pref = []
+        for t in ast.walk(n.test):
+            if isinstance(t, ast.Call) and isinstance(t.func, ast.Attribute) and t.func.attr == 'startswith' and t.args:
+                pref += val(t.args[0]) or []
+            elif isinstance(t, ast.Compare) and len(t.ops) == 1 and isinstance(t.ops[0], (ast.In, ast.Eq)) and isinstance(t.left, ast.Subscript) \
+                    and isinstance(t.left.slice, ast.Slice) and t.left.slice.lower is None and t.left.slice.upper is not None:
+                pref += val(t.comparators[0]) or []
+        if pref:
+            out.append((pref, n))
+    return out
 
 
 def check(tier):
@@ -128,6 +183,23 @@ def check(tier):
             rep.check(not fl, 'C17.delegate', file, 'validate', 'uses %s' % a.replace('stdnum.', ''), 0,
                       'the algorithm %s does not give its guarantees: %s' % (a, fl[0].detail[:120] if fl else ''),
                       what='%s relies on %s (substitution%s)' % (mn.replace('stdnum.', ''), a.replace('stdnum.', ''), ' + transposition' if a in TRANS_ALGS else ''))
+    # ---- characters cut off before the check
+    for mn in inscope:
+        file = rel(prog.mods[mn].path)
+        for fn in ('compact', 'validate'):
+            f = prog.mods[mn].funcs.get(fn)
+            if f is None:
+                continue
+            sites = discarded_prefixes(f)
+            pool = sorted({p for pref, _n in sites for p in pref})
+            near = [(a, b) for i, a in enumerate(pool) for b in pool[i + 1:] if len(a) == len(b) and sum(x != y for x, y in zip(a, b)) == 1]
+            for pref, n in sites:
+                mine = [pr for pr in near if pr[0] in pref or pr[1] in pref]
+                rep.check(not mine, 'C17.discard', file, fn, 'if %s' % ast.unparse(n.test), n.lineno,
+                          '%s.%s() cuts off a recognised prefix before the check and recognises both %r and %r, which differ in one character: '
+                          'mistyping that character gives another accepted spelling and no check sees it'
+                          % ((mn.replace('stdnum.', ''), fn) + (mine[0] if mine else ('', ''))),
+                          what='%s %s: discarded prefixes %s pairwise more than one substitution apart' % (mn.replace('stdnum.', ''), fn, pool))
     # ---- inline weighted sums
     D = B.cls_of_chars('0123456789')
     inline = [('stdnum.isbn', '_calc_isbn10_check_digit', [9], True, 'ISBN-10'), ('stdnum.issn', 'calc_check_digit', [7], True, 'ISSN'),
@@ -188,6 +260,7 @@ def check(tier):
               'ISO 11649 references of %s characters expand beyond the order %d of 10 modulo 97' % (hi, order), what='2 * %s < %d' % (hi, order))
     rep.expect_at_least('C17.coverage', 25, 'modules')
     rep.expect_at_least('C17.inline', 40, 'inline weight obligations')
+    rep.expect_at_least('C17.discard', 8, 'prefix-discarding branches')
     rep.not_decided = ['accepting paths without a check by design: ' + '; '.join('%s (%s)' % kv for kv in UNCHECKED_PATHS.items()), 'partially protected by design: ' + '; '.join('%s (%s)' % (k, v[1]) for k, v in PARTIAL.items()), 'letters replaced by letters in formats whose check runs over a mixed alphabet beyond what the generic algorithm guarantees',
                        'IMEI of 14 or 16 digits (no check digit by definition)'] + ['%s: %s' % kv for kv in COVERAGE_UNDECIDED.items()]
     return rep.finish()
